@@ -9,8 +9,14 @@ template <class K> static void run_engine(Ctx &ctx, EngCfg g) {
     Engine<K> e(ctx, g);
     e.run();
 }
-static void dispatch(Ctx &ctx, const EngCfg &g) {
+static void dispatch(Ctx &ctx, EngCfg g) {
     int k = (int)(ctx.case_no % 5);   // 3/5 polyhedral soups, 1/5 tet, 1/5 hex
+    if (ctx.case_no % 25 == 7) {      // polyhedral case starting from one of the repository's small test files
+        static const char *files[] = {"Cube_with_props.ovm", "NonManifold.ovm", "Cube_with_props.ovmb", "NonManifold.ovmb"};
+        const char *repo = getenv("VF_REPO");
+        g.load_base = std::string(repo ? repo : "/repo") + "/src/Unittests/TestFiles/" + files[(ctx.case_no / 25) % 4];
+        g.build_steps = 3;
+    }
     if (k == 3) run_engine<TetK>(ctx, g); else if (k == 4) run_engine<HexK>(ctx, g); else run_engine<PolyK>(ctx, g);
 }
 static int steps_for(const Args &a, int q, int t) { return (int)a.num("steps", a.tier == "thorough" ? t : q); }
